@@ -32,11 +32,13 @@ _ap.add_argument('ll'); _ap.add_argument('--threads', default=''); _ap.add_argum
 _ap.add_argument('--setup', default='setup'); _ap.add_argument('--check', default='check')
 _ap.add_argument('--noprune', action='store_true')
 _ap.add_argument('--drain', action='store_true', help='after the symbolic rounds run every thread to completion or to a blocked spin, and assert completion (bounded progress)')
+_ap.add_argument('--ro-fields', default='', help='comma separated <struct>.<field index> (LLVM struct name without "struct."): fields no thread stores to in this scenario. Loads through a getelementptr into such a field get no yield point (they commute with everything); a store/atomic through such a getelementptr in thread code is emitted as a failing INTERNAL assertion, so a wrong declaration is reported, never silently assumed')
 _ap.add_argument('--benign', default='', help='comma separated callees whose calls do not change state (pure spin loops with local counters gating them are prunable)')
 _args = _ap.parse_args()
 src = open(_args.ll).read()
 threads = [t for t in _args.threads.split(',') if t]
 benign = set(x for x in _args.benign.split(',') if x)
+ro_fields = set(x for x in _args.ro_fields.split(',') if x)
 
 # ---------------------------------------------------------------- type parser
 class T:  # kinds: int, ptr, struct(named), lit(struct literal), arr, fn, void, float, double
@@ -443,6 +445,8 @@ def translate_fn(f):
         yieldno[0] += 1; k = yieldno[0]
         return ['if(__yield()){ %spc = %d; %sw = 1; return; } case %d:;' % (f.prefix, k, f.prefix, k)]
     islocal = {}   # ssa name -> True if derived from non-escaping alloca
+    rotag = {}     # C name of a pointer value -> True if it points into a field listed in --ro-fields
+    RO_FAIL = 'VP_INTERNAL_FAIL("INTERNAL: store to a field declared thread-read-only (--ro-fields)");'
     prov = {}      # C expr of an i64 value -> C expr of the pointer it was made from
     pair = {}      # C expr of an i128 value -> (lo, hi), each ('zero',) | ('int', expr) | ('ptr', expr, ptrtype)
     orig = {}      # C expr of a bitcast pointer -> (root expr, root pointer type)
@@ -494,7 +498,7 @@ def translate_fn(f):
                 pt, pv, p = parse_typed_value(rest, p, f)
                 define(dst, t)
                 nm = re.match(r'\s*%("[^"]+"|[\w.$-]+)', rest[rest.index(',')+1:].replace(tkey_s(pt, rest), '', 1)) if False else None
-                if not ptr_is_local(pv, islocal, f): stm += Y('load')
+                if not ptr_is_local(pv, islocal, f) and not rotag.get(pv): stm += Y('load')
                 d_ = f.vname(dst)
                 if t.k == 'int' and t.bits == 128 and typed_halves(pv, pt):
                     (llo, tlo), (lhi, thi) = typed_halves(pv, pt)
@@ -516,6 +520,7 @@ def translate_fn(f):
                 vt, vv, p = parse_typed_value(rest, 0, f); p = skipws(rest, p); assert rest[p] == ','; p += 1
                 pt, pv, p = parse_typed_value(rest, p, f)
                 if not ptr_is_local(pv, islocal, f): stm += Y('store')
+                if f.is_thread and rotag.get(pv): stm.append(RO_FAIL)
                 if vt.k == 'int' and vt.bits == 128 and vv in pair and typed_halves(pv, pt):
                     (llo, tlo), (lhi, thi) = typed_halves(pv, pt)
                     stm.append('%s = %s; %s = %s; WFLAG' % (llo, part_as(pair[vv][0], tlo), lhi, part_as(pair[vv][1], thi))); continue
@@ -534,10 +539,17 @@ def translate_fn(f):
                     else: break
                 e, rt = gep_expr(bt, pv, idx)
                 define(dst, T('ptr', to=rt)); islocal[dst] = ptr_is_local(pv, islocal, f)
+                if ro_fields:
+                    _ro = bool(rotag.get(pv))
+                    if not _ro and bt.k == 'struct' and len(idx) > 1:
+                        try: _ro = ('%s.%d' % (re.sub(r'^(struct|union)\.', '', bt.name), const_int(idx[1]))) in ro_fields
+                        except Exception: _ro = False
+                    if _ro: rotag[f.vname(dst)] = True
                 stm.append('%s = (%s)%s;' % (f.vname(dst), ctype(T('ptr', to=rt)), e))
             elif op in ('bitcast', 'ptrtoint', 'inttoptr', 'trunc', 'zext', 'sext', 'sitofp', 'uitofp', 'fptosi', 'fptoui', 'fpext', 'fptrunc'):
                 ft, fv, p = parse_typed_value(rest, 0, f); p = skipws(rest, p); assert rest.startswith('to', p); p += 2
                 tt, p = tokenize_type(rest, p); define(dst, tt)
+                if op == 'bitcast' and rotag.get(fv): rotag[f.vname(dst)] = True
                 if op == 'bitcast': islocal[dst] = ptr_is_local(fv, islocal, f)
                 if op == 'sext':
                     e = '((%s)(%s)(%s)%s)' % (ctype(tt), sct(tt), sct(ft), fv) if ft.bits > 1 else '((%s)(-(%s)(%s & 1)))' % (ctype(tt), sct(tt), fv)
@@ -618,6 +630,7 @@ def translate_fn(f):
                 nt, nv, p = parse_typed_value(rest, p, f)
                 rt = T('lit', fields=[ct_, T('int', bits=1)], packed=False); define(dst, rt)
                 stm += Y('cmpxchg')
+                if f.is_thread and rotag.get(pv): stm.append(RO_FAIL)
                 d = f.vname(dst)
                 if ct_.k == 'int' and ct_.bits == 128 and cv in pair and nv in pair and typed_halves(pv, pt):
                     (llo, tlo), (lhi, thi) = typed_halves(pv, pt)
@@ -637,6 +650,7 @@ def translate_fn(f):
                 aop, r2 = rest.split(' ', 1); pt, pv, p = parse_typed_value(r2, 0, f); p = skipws(r2, p); p += 1
                 vt, vv, p = parse_typed_value(r2, p, f); define(dst, vt)
                 stm += Y('rmw'); d = f.vname(dst)
+                if f.is_thread and rotag.get(pv): stm.append(RO_FAIL)
                 cop = {'add': '+', 'sub': '-', 'or': '|', 'and': '&', 'xor': '^'}
                 if aop == 'xchg': upd = vv
                 else: upd = '(%s)(%s %s %s)' % (ctype(vt), d, cop[aop], vv)
@@ -676,7 +690,9 @@ def translate_fn(f):
                 if direct and callee.startswith('llvm.'):
                     if callee.startswith('llvm.lifetime') or callee.startswith('llvm.dbg') or callee.startswith('llvm.assume'): continue
                     if callee.startswith('llvm.memcpy') or callee.startswith('llvm.memmove'):
-                        stm += Y('memcpy'); stm.append('memmove(%s, %s, %s); WFLAG' % (args[0][1], args[1][1], args[2][1])); continue
+                        # initialising a non-escaping local from a compiler-generated constant (`struct timespec ts = {..}`) touches no shared memory
+                        if not (ptr_is_local(args[0][1], islocal, f) and re.search(r'\(&G___const_[A-Za-z0-9_]+\)', args[1][1])): stm += Y('memcpy')
+                        stm.append('memmove(%s, %s, %s); WFLAG' % (args[0][1], args[1][1], args[2][1])); continue
                     if callee.startswith('llvm.memset'):
                         stm += Y('memset'); stm.append('memset(%s, %s, %s); WFLAG' % (args[0][1], args[1][1], args[2][1])); continue
                     if callee.startswith('llvm.expect'):
